@@ -41,6 +41,11 @@ def run(chk):
     chk.coverage["trusted_base"] = [
         "Coq 8.16.1 kernel + vm_compute",
         "hand-written model coq/Model/Sink.v (tied by this correspondence run)",
+        "translator/tr_sinkformat.py + translator/rsparse.py (header / footer / delimiter strings of json, ndjson and csv, the CSV key "
+        "orders, separators, quoting rule, empty-row and failed-cell texts, error keys, the writeln! record template, counter step, flush "
+        "rule, header default, write mode and flush-rate table compiled to coq/Gen/SinkFormat.v on every run; fails closed; "
+        "coq/Props/GenSinkFormat.v proves Model/Sink.v equal to its restatement over them, so a misreading shows up in the fmt / csv / "
+        "sink streams)",
         "std::sync::Mutex (mutual exclusion, modelled as the lock of the step relation), File::write/O_APPEND "
         "(each write call appends its bytes at the end; the trace records the byte count each call returned)",
         "hook H1 in response_sink.rs (cfg compass_verif): events are recorded while the file lock is held",
@@ -57,7 +62,18 @@ def run(chk):
         "CSV header: the configured column names are not a single empty name (a blank header line is skipped by readers)",
         "serde_json's default float parser (feature float_roundtrip off, as in /repo) is off by one ulp on some 17-digit "
         "texts: 'parses back' is judged with a correctly rounding reader; the records themselves are exact"]
-    chk.proofs(extra_targets=["Model/SinkRun.vo"])
+    # Gen/SinkFormat.v: delimiters, header / footer texts, newline conventions, CSV quoting, key orders, error keys, the record
+    # template, the flush rule and the flush-rate table are regenerated from the Rust source; Props/GenSinkFormat.v proves
+    # Model/Sink.v equal to its restatement over them, for all inputs
+    tres = vf.run_translators(which=["sinkformat"]).get("sinkformat", {"ok": False, "msg": "translator module tr_sinkformat.py missing"})
+    chk.coverage["translator"] = {"sinkformat": {k: tres.get(k) for k in ("ok", "msg", "digest", "files", "changed")}}
+    if not tres.get("ok"):
+        chk.violation("broken-correspondence", "translator", {"translator": "tr_sinkformat", "error": tres.get("msg")},
+                      tres.get("msg"), "app/compass/response/{response_output_format_json,response_output_format,response_sink,write_mode,"
+                      "response_output_policy}.rs have the shape the translator knows (fail closed)",
+                      detail="coq/Gen/SinkFormat.v could not be regenerated; the previous constants (if any) are used below",
+                      found=False, key="translator-sinkformat")
+    chk.proofs(extra_targets=["Model/SinkRun.vo"], extra_props=["Props/GenSinkFormat.v"])
     binp = vf.build_harness("c19")
     thorough = chk.tier != "quick"
     only = replay_stream(chk)
